@@ -76,7 +76,7 @@ def strategy():
         "uri": st.sampled_from(["com.myapp.error.custom", "wamp.error.not_authorized", "com.myapp.error.decorated", "a.b"]),
         "args": vals, "kwargs": kws, "tb": st.booleans(), "caller_knows": st.booleans(), "async_endpoint": st.booleans(),
         "ser": st.sampled_from(["json", "msgpack", "cbor", "ubjson"]), "own_tb": st.sampled_from([False, False, False, True]),
-        "check_types": st.sampled_from([False, False, True])})      # the procedure is registered with check_types=True (the library wraps the endpoint)
+        "check_types": st.sampled_from([False, False, True]), "alias": st.sampled_from([None, None, "before", "after"])})      # the procedure is registered with check_types=True (the library wraps the endpoint)
 
 
 def check_flow(c):
@@ -199,7 +199,12 @@ def check_flow(c):
             if kind == "decorated":
                 caller.session.define(cls)
             else:
+                # the caller may map the same class to further error URIs (before or after): every registered URI surfaces as that class
+                if c.get("alias") == "before":
+                    caller.session.define(cls, "com.myapp.error.alias_of_it")
                 caller.session.define(cls, uri)
+                if c.get("alias") == "after":
+                    caller.session.define(cls, "com.myapp.error.alias_of_it")
         for w_ in (callee, caller):
             w_.session.define(DecoyB, "com.decoy.b")
         pending = []
